@@ -4,9 +4,12 @@ Line-protocol engine `certkeys` (C43): key PEM banners and encrypted signing key
 ops (banners are hex of the banner text):
   unkey <fn pub|spub|priv|spriv> <banner hex> <bytes hex|->  -> ok <curve> <len> | err:banner | err:length | err:encrypted
   mkey <fn pub|spub|priv|spriv|enc> <curve>                   -> <banner hex> | nil
-  dec <banner hex> <pass hex|-> <body hex|-> <aead 0|1> <plain hex|-> <kind orig|wrongpass|tampered|crafted> <origkey hex|->
+  dec <banner hex> <pass hex|-> <body hex|-> <aead 0|1> <plain hex|-> <kind orig|wrongpass|tampered|kdfparam|crafted> <origkey hex|->
       -> ok <curve> <key hex> | err:<kind>
-      aead / plain: what AES-256-GCM open answers for this (passphrase, parameters, blob) — observed by the harness
+      aead / plain: what AES-256-GCM open answers for this (passphrase, parameters, blob) — computed by the harness's
+      own implementation of the format (x/crypto argon2 + crypto/cipher), re-validated by the executor
+  enc <curve> <pass hex|-> <key hex|-> <mem> <par> <iter>
+      -> ok <curve> <key hex> <mem> <par> <iter> <salt length> | err:curve | err:indep-open …
 -/
 import Nebula.Driver.Common
 import Nebula.Model.CertKeys
@@ -66,12 +69,25 @@ def step (s : Unit) (args : List String) (impl : String) : Unit × Out :=
         if kind == "orig" then
           (if impl.startsWith "ok " && (impl.splitOn " ").getD 2 "" == bytesToHex orig then "ok"
            else s!"bad encrypted-key-not-recovered impl={impl}")
+        else if kind == "kdfparam" then
+          -- one of memory / iterations / parallelism / salt / nonce differs from what the key was sealed under
+          (if impl.startsWith "ok " then "bad encrypted-key-opened-with-altered-kdf-parameter" else "ok")
         else if kind == "wrongpass" || kind == "tampered" then
           (if impl.startsWith "ok " && (impl.splitOn " ").getD 2 "" != bytesToHex orig then "bad encrypted-key-opened-to-other-key"
            else if kind == "wrongpass" && impl.startsWith "ok " then "bad encrypted-key-opened-with-wrong-passphrase"
            else "ok")
         else "ok"
       (s, { model := m, verdict := verdict, tag := s!"dec:{kind}:" ++ ((m.splitOn " ").headD "") })
+    | _, _, _, _, _ => (s, badOp)
+  | ["enc", curve, _pass, key, mem, par, iter] =>
+    -- the real encryption, opened by the harness's second implementation of the format (x/crypto argon2 over the
+    -- recorded parameters + AES-256-GCM): `ok <banner curve> <key> <memory> <parallelism> <iterations> <salt length>`
+    match natArg curve, hexToBytes key, natArg mem, natArg par, natArg iter with
+    | some curve, some key, some mem, some par, some iter =>
+      let m := match encryptedKeyBanner curve with
+        | none => "err:curve"
+        | some _ => s!"ok {curve} {bytesToHex key} {mem} {par} {iter} 32"
+      (s, { model := m, verdict := expect "encrypted-key-not-interoperable" impl m, tag := "enc:" ++ ((m.splitOn " ").headD "") })
     | _, _, _, _, _ => (s, badOp)
   | _ => (s, badOp)
 
